@@ -40,15 +40,18 @@ def check_C07(tier, seed, res, replay=None):
 
 
 # ------------------------------------------------------------------------------------- C08
-def small_ta(rng):
+def small_ta(rng, slot=0):
     A, _ = gen.rand_ta(rng, nq=rng.choice([1, 2, 2, 3]), nrules=rng.choice([1, 2, 3, 4, 5]),
                        alpha=[["a", 0], ["b", 0], ["g", 1], ["f", 2]])
-    base = rng.choice([0, 0, 10, 20])
+    # automata loaded into different slots mostly use disjoint state ranges (UnionDisjointStates needs that); sometimes they overlap (Union)
+    base = 10 * slot if rng.random() < 0.75 else 0
     return gen.rename(A, {q: q + base for q in range(4)})
 
 
 def gen_bdd_history(rng, nsteps, enc):
     live, tlive = {}, set()
+    fam = {}            # handle -> family id: handles of one family may share a transition table (copies, results built on an operand)
+    nfam = [0]
     sts = {}            # handle -> set of state numbers if known (loaded automata and their copies / disjoint unions)
     steps = []
     for _ in range(nsteps):
@@ -56,10 +59,12 @@ def gen_bdd_history(rng, nsteps, enc):
         r = rng.random()
         if not live or (dead and r < 0.25):
             h = rng.choice(dead)
-            a = small_ta(rng)
+            a = small_ta(rng, h)
             steps.append(["load", h, a])
             live[h] = len(a["rules"])
             sts[h] = gen.states_of(a)
+            nfam[0] += 1
+            fam[h] = nfam[0]
             continue
         hs = sorted(live)
         h = rng.choice(hs)
@@ -68,21 +73,25 @@ def gen_bdd_history(rng, nsteps, enc):
             steps.append(["copy", d, h])
             live[d] = live[h]
             sts[d] = sts.get(h)
+            fam[d] = fam.get(h)
         elif r < 0.40:
             g = rng.choice(hs)
             steps.append(["assign", h, g])
             live[h] = live[g]
             sts[h] = sts.get(g)
-        elif r < 0.50:
+            fam[h] = fam.get(g)
+        elif r < 0.47:
             steps.append(["destroy", h])
             del live[h]
+        elif r < 0.52 and sts.get(h):
+            steps.append(["final", h, rng.choice(sorted(sts[h]))])
         elif r < 0.55 and tlive:
             t = rng.choice(sorted(tlive))
             steps.append(["tdestroy", t])
             tlive.discard(t)
         elif dead and live[h] <= 8:
             d = rng.choice(dead)
-            kind = rng.choice(["union", "union", "uniondisj", "isect", "isect", "unreach", "useless", "useless"] + (["totd"] if enc == "bu" else []))
+            kind = rng.choice(["union", "union", "uniondisj", "uniondisj", "isect", "isect", "unreach", "useless", "useless"] + (["totd"] if enc == "bu" else []))
             if kind == "totd":
                 free = [t for t in range(NH) if t not in tlive]
                 if free:
@@ -92,6 +101,9 @@ def gen_bdd_history(rng, nsteps, enc):
                 continue
             if kind in ("union", "uniondisj", "isect"):
                 g = rng.choice(hs)
+                kin = [x for x in hs if x != h and fam.get(x) == fam.get(h)]
+                if kin and rng.random() < 0.5:
+                    g = rng.choice(kin)            # operands that may share one transition table
                 if live[g] > 8:
                     continue
                 if kind == "uniondisj":
@@ -102,11 +114,41 @@ def gen_bdd_history(rng, nsteps, enc):
                 else:
                     sts[d] = None
                 steps.append([kind, d, h, g])
+                fam[d] = fam.get(h)
                 live[d] = live[h] + live[g] if kind != "isect" else live[h] * live[g]
             else:
                 steps.append([kind, d, h])
                 live[d] = live[h]
                 sts[d] = None
+                fam[d] = fam.get(h)
+    return {"op": "bddhist", "enc": enc, "kind": "bdd", "steps": steps}
+
+
+def sharing_scenario(rng, enc):
+    """scripted openings that make operands share ONE transition table while differing in final states / nullary rules,
+    followed by a random continuation (the property's 'automata that may share one transition table')"""
+    A = small_ta(rng, 0)
+    sa = sorted(gen.states_of(A))
+    kind = rng.randrange(3)
+    if kind == 0 or len(sa) < 2:
+        # copies of one automaton with different final states
+        steps = [["load", 0, A], ["copy", 1, 0], ["final", 0, rng.choice(sa)], ["final", 1, rng.choice(sa)],
+                 [rng.choice(["isect", "union"]), 2, 0, 1], ["copy", 3, 1], ["final", 3, rng.choice(sa)], [rng.choice(["isect", "union"]), 2 if False else 0, 3, 1]]
+        steps = steps[:5] + [["destroy", 2]] + [["copy", 3, 1], ["final", 3, rng.choice(sa)], [rng.choice(["isect", "union"]), 2, 3, 0]]
+    elif kind == 1:
+        # two results built on the same left operand
+        B, C = small_ta(rng, 1), small_ta(rng, 2)
+        if (gen.states_of(A) & gen.states_of(B)) or (gen.states_of(A) & gen.states_of(C)):
+            B = gen.rename(B, {q: q + 100 for q in range(40)})
+            C = gen.rename(C, {q: q + 200 for q in range(40)})
+        steps = [["load", 0, A], ["load", 1, B], ["uniondisj", 2, 0, 1], ["destroy", 1], ["load", 1, C], ["uniondisj", 3, 0, 1],
+                 ["destroy", 1], [rng.choice(["isect", "union"]), 1, 2, 3]]
+    else:
+        B = small_ta(rng, 1)
+        if gen.states_of(A) & gen.states_of(B):
+            B = gen.rename(B, {q: q + 100 for q in range(40)})
+        steps = [["load", 0, A], ["load", 1, B], ["uniondisj", 2, 0, 1], [rng.choice(["union", "isect"]), 3, 0, 2], ["destroy", 1],
+                 [rng.choice(["union", "isect"]), 1, 2, 3]]
     return {"op": "bddhist", "enc": enc, "kind": "bdd", "steps": steps}
 
 
@@ -166,12 +208,35 @@ def check_C08(tier, seed, res, replay=None):
         res.rule = "replay of " + replay
         return run_bdd_hist(res, rd, "replay", cases)
     rng = random.Random(seed)
-    n, steps = (3000, 30) if tier == "thorough" else (600, 20)
+    n, steps = (12000, 30) if tier == "thorough" else (2400, 20)
     cases = []
     for i in range(n):
-        c = gen_bdd_history(rng, rng.randint(steps // 2, steps), "bu" if i % 2 == 0 else "td")
+        enc = "bu" if i % 2 == 0 else "td"
+        c = sharing_scenario(rng, enc) if i % 4 >= 2 else gen_bdd_history(rng, rng.randint(steps // 2, steps), enc)
         c["id"] = ["c08", i]
         cases.append(c)
+    # agreement arm: each BDD operation against the same operation in the explicit encoding (library's own inclusion);
+    # disagreeing pairs come back as 3-step histories and are judged by TLC like all others
+    nb, per = (640, 3000) if tier == "thorough" else (64, 1500)
+    batches = [{"id": ["bddagree", i], "op": "bddagree", "seed": seed * 4099 + i, "count": per, "tmo": 900000} for i in range(nb)]
+    cf = os.path.join(rd, "agree.cases.ndjson")
+    vlib.write_ndjson(cf, batches)
+    pairs = 0
+    for sh in vlib.drive(cf, os.path.join(rd, "agree.ev"), timeout_ms=900000):
+        for ev in vlib.read_ndjson(sh):
+            if ev.get("outcome") != "ok":
+                cases.append({"op": "bddagree", "seed": ev.get("seed"), "count": ev.get("count"), "kind": "bdd", "id": ev.get("id"), "steps": [], "enc": "bu",
+                              "_abort": ev.get("outcome")})
+                continue
+            pairs += ev["res"]["count"]
+            for i, c in enumerate(ev["res"]["suspicious"]):
+                c["id"] = ["bddagree", ev["seed"], i]
+                cases.append(c)
+    res.extra["agreement_arm_pairs"] = pairs
     res.count_cases(cases, nt_bdd)
     res.add_samples([{"enc": c["enc"], "steps": c["steps"][:8]} for c in cases if nt_bdd(c)][:3])
-    run_bdd_hist(res, rd, "c08", cases)
+    run_bdd_hist(res, rd, "c08", [c for c in cases if c.get("op") == "bddhist"])
+    aborted = [c for c in cases if c.get("_abort")]
+    if aborted:
+        res.report_fails([(None, 0, ["outcome:" + c["_abort"]], {"op": "bddagree", "seed": c["seed"], "count": c["count"], "outcome": c["_abort"]}) for c in aborted],
+                         os.path.join(vlib.OUT, "viol"))
